@@ -50,3 +50,24 @@ func TestVerifReproC41FragmentForeignEndHTML(t *testing.T) {
 		}
 	}
 }
+
+// ParseFragment with a nil context (allowed by its documentation): the in-body rules for <input> and <select> read
+// p.context.DataAtom without a nil check (fixed in /repo 88d32c3).
+func TestVerifReproC41FragmentNilContext(t *testing.T) {
+	for _, in := range []string{"<input>", "<select>", "<b><select>x<p>"} {
+		if _, err := html.ParseFragment(strings.NewReader(in), nil); err != nil {
+			t.Errorf("ParseFragment(%q, nil): %v", in, err)
+		}
+	}
+}
+
+// ParseFragment whose context is an svg-namespace element named "template" (a parsed tree can contain one):
+// resetInsertionMode left p.im nil (fixed in /repo).
+func TestVerifReproC41FragmentForeignTemplateContext(t *testing.T) {
+	ctx := &html.Node{Type: html.ElementNode, Data: "template", DataAtom: atom.Template, Namespace: "svg"}
+	for _, in := range []string{"", "<a><a>x<p>"} {
+		if _, err := html.ParseFragment(strings.NewReader(in), ctx); err != nil {
+			t.Errorf("ParseFragment(%q, svg:template): %v", in, err)
+		}
+	}
+}
